@@ -817,7 +817,8 @@ class Engine:
         cands = [n for n in self.model.of_kind("object", "group") if len(self.model.subtree(n.uid)) <= 25]
         if not cands:
             raise ExpectedRefusal("nothing to clip")
-        n = self.rng.choice(cands)
+        nested = [c for c in cands if c.kind == "group" and any(self.model.nodes[u].kind == "group" for u in self.model.children(c.uid))]
+        n = self.rng.choice(nested) if nested and self.rng.random() < 0.5 else self.rng.choice(cands)
         sub = [self.model.nodes[u] for u in self.model.subtree(n.uid)]
         if any(x.cls == "GeoImage" for x in sub):
             raise ExpectedRefusal("clipping an image is a conversion through temporary grids, not a selection")
@@ -1104,6 +1105,24 @@ class Engine:
 
     def op_dup_uid(self, op):
         """Explicit request to reuse an identifier in use: must be refused (observed by C06 monitor)."""
+        hosts = [o for o in self.model.of_kind("object") if self.model.children(o.uid) or o.pgs]
+        if hosts and self.rng.random() < 0.25:
+            # a property group asked to take the identifier of a sibling under the same object (a data entity or another group)
+            o = self.rng.choice(hosts)
+            obj = self.ent(o.uid)
+            taken = [str(c.uid) for c in obj.children]
+            u = self.rng.choice(taken)
+            op.update(cls=o.cls, target=o.uid, collide="sibling", expect="refused")
+            op["as"] = "property-group"
+            try:
+                obj.create_property_group(name=self.new_name("duppg"), uid=uuid.UUID(u))
+            except Exception as exc:  # noqa: BLE001
+                op["refused"] = f"{type(exc).__name__}"
+                self.rec.see("dup-refused:sibling-pg")
+                return
+            op["accepted"] = u
+            self.rec.see("dup-accepted:sibling-pg")
+            return
         n = self.pick_any()
         kind = self.rng.choice(["same", "other"])
         op.update(cls=n.cls, target=n.uid, collide=kind)
